@@ -39,7 +39,9 @@ VDoc == << [k |-> "root", p |-> 0, sp |-> <<>>, lo |-> <<>>, v |-> <<>>],
            El(2, <<"h">>), Tx(36, <<"1", "Z400">>), El(2, <<"h">>), Tx(38, <<"-", "9", "Z400">>),   \* 36..39 h = 10^400, -9*10^400
            El(2, <<"g">>), Tx(40, <<"2", "Z400">>), El(2, <<"g">>), Tx(42, <<"a">>), El(2, <<"g">>), Tx(44, <<"5">>),    \* 40..45 g = 2*10^400, "a", "5"
            \* the spellings number-to-string produces for the non-finite values are not numerals: as node text they are NaN
-           El(2, <<"u">>), Tx(46, <<"N","a","N">>), El(2, <<"u">>), Tx(48, <<"-","I","n","f","i","n","i","t","y">>) >>    \* 46..49 u = "NaN", "-Infinity"
+           El(2, <<"u">>), Tx(46, <<"N","a","N">>), El(2, <<"u">>), Tx(48, <<"-","I","n","f","i","n","i","t","y">>),      \* 46..49 u = "NaN", "-Infinity"
+           \* a comment and a processing instruction: their string-values are their content ("10", "9") in comparisons as anywhere else
+           [k |-> "comment", p |-> 2, sp |-> <<>>, lo |-> <<>>, v |-> <<"1","0">>], [k |-> "pi", p |-> 2, sp |-> <<>>, lo |-> <<"t">>, v |-> <<"9">>] >>   \* 50 51
 ASSUME WellFormed(VDoc)
 Named(nm) == Abs(<<DoS, Step("child", T_name("", nm))>>)
 
@@ -97,7 +99,8 @@ NsOps == << NsOp(<<>>, Named(<<"q">>)), NsOp(<<3, 5>>, Named(<<"a">>)), NsOp(<<7
             NsOp(<<5, 9, 3, 7>>, NoE), NsOp(<<9, 3, 12, 5>>, NoE),   \* ... and in no order at all: the first node in document order (3) sits in the middle
             NsOp(<<3, 12, 5, 9>>, NoE),                              \* ... or comes first and is followed by a descent
             NsOp(<<24, 26>>, Named(<<"x">>)), NsOp(<<28, 30>>, Named(<<"y">>)), NsOp(<<32, 34>>, Named(<<"w">>)),
-            NsOp(<<36, 38>>, Named(<<"h">>)), NsOp(<<40, 42, 44>>, Named(<<"g">>)), NsOp(<<40, 44>>, NoE), NsOp(<<46, 48>>, Named(<<"u">>)), NsOp(<<46>>, NoE) >>
+            NsOp(<<36, 38>>, Named(<<"h">>)), NsOp(<<40, 42, 44>>, Named(<<"g">>)), NsOp(<<40, 44>>, NoE), NsOp(<<46, 48>>, Named(<<"u">>)), NsOp(<<46>>, NoE),
+            NsOp(<<50>>, Abs(<<DoS, Step("child", T_comment)>>)), NsOp(<<51>>, Abs(<<DoS, Step("child", T_pi)>>)), NsOp(<<50, 51>>, NoE) >>
 CmpNums == SubSeq(NumOps, 1, 13) \o <<NumOp(R(3, 2)), NumOp(R(1, 2))>>
 AllOps == NsOps \o CmpNums \o StrOps \o BoolOps
 
@@ -121,8 +124,10 @@ Odd == << <<"I","n","f","i","n","i","t","y">>, <<"-","I","n","f","i","n","i","t"
 (***************************************************************************)
 (* the chooser                                                             *)
 (***************************************************************************)
+StrOps6 == << StrOp(<<"1","2",".">>), StrOp(<<".","5">>), StrOp(<<"sp","3","nl">>), StrOp(<<"-","7",".">>), StrOp(<<"1","e","2">>) >>   \* "12." and ".5" are numerals
+Ops6 == NumOps \o NsOps \o BoolOps \o StrOps6    \* (a boolean operand is 1 or 0: true() + 1 = 2)
 PoolA == CASE Family = "C05" -> AllOps
-           [] Family = "C06" -> NumOps \o NsOps \o BoolOps
+           [] Family = "C06" -> Ops6
            [] Family = "C04n" -> NumOps
            [] Family = "C04v" -> NsOps
            [] Family = "C04s" -> SeqsOf(NumAlpha, H1) \o Odd
@@ -130,7 +135,7 @@ PoolA == CASE Family = "C05" -> AllOps
            [] Family \in {"C07b", "C07t"} -> SeqsOf({"a", "b", "w2"}, 3)
            [] Family = "C07s" -> << <<"a", "w2", "b", "w4", "c">>, <<"1", "2", "3", "4", "5">>, <<>>, <<"w3", "cm">> >>
 PoolB == CASE Family = "C05" -> AllOps
-           [] Family = "C06" -> NumOps \o NsOps \o BoolOps
+           [] Family = "C06" -> Ops6
            [] Family \in {"C04n", "C04v"} -> <<0>>
            [] Family = "C04s" -> SeqsOf(NumAlpha, H2)
            [] Family = "C07u" -> SeqsOf(StrAlpha, H2)
@@ -175,7 +180,6 @@ ASSUME Family = "C05" => \E i \in 1..Len(NsOps), j \in 1..Len(NsOps) :
 (***************************************************************************)
 (* C06                                                                     *)
 (***************************************************************************)
-Ops6 == NumOps \o NsOps \o BoolOps    \* (a boolean operand is 1 or 0: true() + 1 = 2)
 S_floor == <<"f","l","o","o","r">>
 S_ceiling == <<"c","e","i","l","i","n","g">>
 S_round == <<"r","o","u","n","d">>
@@ -264,6 +268,8 @@ S_sa == <<"s","u","b","s","t","r","i","n","g","-","a","f","t","e","r">>
 S_sub == <<"s","u","b","s","t","r","i","n","g">>
 S_tr == <<"t","r","a","n","s","l","a","t","e">>
 C07uStr == PoolA[a] \o PoolB[b]
+UpperAZ == <<"A","B","C","D","E","F","G","H","I","J","K","L","M","N","O","P","Q","R","S","T","U","V","W","X","Y","Z">>
+LowerAZ == <<"a","b","c","d","e","f","g","h","i","j","k","l","m","n","o","p","q","r","s","t","u","v","w","x","y","z">>
 C07Laws == (Ready /\ Family \in {"C07u", "C07b", "C07t", "C07s"}) =>
   CASE Family = "C07u" ->
          LET s == C07uStr n == NormalizeSpace(s) IN
@@ -292,7 +298,9 @@ C07Cases ==
          LET s == C07uStr env == Env1(StrV(s)) IN
          << Obj(env, F1(S_len, XVar)), Obj(env, F1(S_norm, XVar)), Obj(env, F1(S_len, Lit(s))), Obj(env, F1(S_norm, Lit(s))),
             Obj(env, F2(S_concat, XVar, XVar)), Obj(env, F2(S_sub, XVar, IntE(2))), Obj(env, F3(S_sub, XVar, IntE(2), IntE(2))),
-            Obj(env, F3(S_tr, XVar, Lit(<<"a", "sp", "w2">>), Lit(<<"w4", "b">>))), Obj(env, F3(S_sub, XVar, NumE(R(3, 2)), NumE(R(5, 2)))) >>
+            Obj(env, F3(S_tr, XVar, Lit(<<"a", "sp", "w2">>), Lit(<<"w4", "b">>))), Obj(env, F3(S_sub, XVar, NumE(R(3, 2)), NumE(R(5, 2)))),
+            \* the case-folding idiom maps the 26 listed letters and nothing else (a non-ASCII letter of the source stays as it is)
+            Obj(env, F3(S_tr, XVar, Lit(UpperAZ), Lit(LowerAZ))), Obj(env, F3(S_tr, XVar, Lit(LowerAZ), Lit(UpperAZ))) >>
     [] Family = "C07b" ->
          LET env == Env2(StrV(PoolA[a]), StrV(PoolB[b])) IN
          << Obj(env, F2(S_sw, XVar, YVar)), Obj(env, F2(S_cont, XVar, YVar)), Obj(env, F2(S_sb, XVar, YVar)), Obj(env, F2(S_sa, XVar, YVar)),
@@ -342,7 +350,10 @@ C04vCases == LET A == NsOps[a] env == EnvV(A.val) IN
      Obj(env, F1(S_string, Pk)), Obj(env, F1(S_number, Pk)), Obj(env, F1(S_boolean, Pk)), Obj(env, F2(S_sa, Pk, Lit(<<"1">>))), Obj(env, Bin("mul", Pk, IntE(2))),
      Obj(env, F3(S_tr, XVar, Lit(<<"1">>), Lit(<<"9">>))), Obj(env, F3(S_sub, Lit(<<"a","b","c">>), XVar, IntE(1))),
      \* a node-set compared with a boolean is converted as a whole (true iff non-empty), not node by node
-     Obj(env, Bin("eq", XVar, BoolOps[1].e)), Obj(env, Bin("eq", BoolOps[2].e, XVar)), Obj(env, Bin("ne", XVar, BoolOps[1].e)), Obj(env, Bin("ne", BoolOps[2].e, Pk)) >>
+     Obj(env, Bin("eq", XVar, BoolOps[1].e)), Obj(env, Bin("eq", BoolOps[2].e, XVar)), Obj(env, Bin("ne", XVar, BoolOps[1].e)), Obj(env, Bin("ne", BoolOps[2].e, Pk)),
+     \* ... with a number: every node's string-value is CONVERTED to a number (" 10 " = 10, "1.5" = 1.5; "Infinity" is NaN)
+     Obj(env, Bin("eq", XVar, IntE(10))), Obj(env, Bin("eq", IntE(10), XVar)), Obj(env, Bin("eq", XVar, NumE(R(3, 2)))), Obj(env, Bin("eq", NegE(IntE(2)), XVar)),
+     Obj(env, Bin("eq", XVar, Bin("div", IntE(1), IntE(0)))), Obj(env, Bin("eq", XVar, IntE(0))), Obj(env, Bin("ne", XVar, IntE(10))) >>
   \o (IF A.e.op # "none" THEN << Obj(env, F1(S_string, A.e)), Obj(env, F1(S_number, A.e)), Obj(env, F1(S_boolean, A.e)) >> ELSE <<>>)
 
 Cases == CASE Family = "C05" -> C05Cases [] Family = "C04v" -> C04vCases [] Family = "C06" -> C06Cases [] Family = "C04n" -> C04nCases [] Family = "C04s" -> C04sCases
